@@ -2812,10 +2812,12 @@ fn parse_let_destination(
                 require_token(tokens, diagnostics, ",");
             }
 
-            assert!(
-                tokens.idx > start_idx,
-                "The parser should always make forward progress."
-            );
+            if tokens.idx <= start_idx {
+                // The file ended in the middle of the pattern
+                // (e.g. `let (a,`). That has been reported above, so
+                // stop rather than looking at the same token again.
+                break;
+            }
         }
 
         let mut seen: FxHashMap<&String, &Position> = FxHashMap::default();
